@@ -1,14 +1,20 @@
 #!/bin/bash
-# Run once after a fresh restore, offline: builds the framework tools and warms the build caches.
+# Run once after a fresh restore, offline: builds the framework tools, runs the self-tests of the trusted
+# base (Lua-subset interpreter, the five minimal runtimes) and warms the build caches.
 set -u
 VERIF="$(cd "$(dirname "$0")" && pwd)"
 unset GOSUMDB GOTOOLCHAIN
 export GOFLAGS=-mod=mod GOPROXY=off
 mkdir -p "$VERIF/build/bin" "$VERIF/evidence" "$VERIF/replays"
 ( cd "$VERIF/engine" && go build -o "$VERIF/build/bin/rewriter" ./cmd/rewriter ) || exit 1
-# warm GOCACHE: overlay build of vcheck and of the repository binary
 SCR="/var/tmp/verif.setup.$$"; mkdir -p "$SCR"; trap 'rm -rf "$SCR"' EXIT
 "$VERIF/build/bin/rewriter" -repo /repo -hooks "$VERIF/hooks" -out "$SCR/ov" || exit 1
 ( cd "$VERIF/engine" && go build -tags verif -overlay "$SCR/ov/overlay.json" -o "$SCR/vcheck" ./cmd/vcheck ) || exit 1
 ( cd /repo && go build -tags verif -overlay "$SCR/ov/overlay.json" -o "$SCR/fp" ./cmd && go build -o "$SCR/fp2" ./cmd ) || exit 1
+# trusted base self-tests
+( cd "$VERIF/engine" && go test -count=1 ./internal/luai ./internal/dsl ./internal/wire ) || { echo "engine self-tests failed"; exit 1; }
+( cd "$VERIF/runtimes/go" && go test -count=1 ./... ) || { echo "go runtime self-test failed"; exit 1; }
+bash "$VERIF/runtimes/rust/selftest/run.sh" >/dev/null || { echo "rust runtime self-test failed"; exit 1; }
+bash "$VERIF/runtimes/cpp/selftest/run.sh" >/dev/null || { echo "cpp runtime self-test failed"; exit 1; }
+( cd "$VERIF/runtimes/java" && mkdir -p "$SCR/jst" && javac -encoding UTF-8 -d "$SCR/jst" $(find src selftest -name '*.java') && java -Dfile.encoding=UTF-8 -cp "$SCR/jst" selftest.SelfTest >/dev/null ) || { echo "java runtime self-test failed"; exit 1; }
 echo "setup ok"
